@@ -4,13 +4,75 @@ go 1.18
 
 require (
 	github.com/samber/lo v1.52.0
-	github.com/samber/ro v0.0.0
+	github.com/samber/ro v0.2.0
+	github.com/samber/ro/ee v0.0.0
+	github.com/samber/ro/ee/plugins/prometheus v0.0.0
+	github.com/samber/ro/plugins/bytes v0.0.0
+	github.com/samber/ro/plugins/encoding/base64 v0.0.0
+	github.com/samber/ro/plugins/encoding/csv v0.0.0
+	github.com/samber/ro/plugins/encoding/gob v0.0.0
+	github.com/samber/ro/plugins/encoding/json v0.0.0
+	github.com/samber/ro/plugins/ratelimit/native v0.0.0
+	github.com/samber/ro/plugins/ratelimit/ulule v0.0.0
+	github.com/samber/ro/plugins/regexp v0.0.0
+	github.com/samber/ro/plugins/sort v0.0.0
+	github.com/samber/ro/plugins/stdio v0.0.0
+	github.com/samber/ro/plugins/strconv v0.0.0
+	github.com/samber/ro/plugins/strings v0.0.0
+	github.com/samber/ro/plugins/template v0.0.0
+	github.com/samber/ro/plugins/time v0.0.0
 	golang.org/x/exp v0.0.0-20240613232115-7f521ea00fb8
+	golang.org/x/sys v0.29.0
 	verif.local/vrt v0.0.0
 )
 
-require golang.org/x/text v0.22.0 // indirect
+require (
+	github.com/beorn7/perks v1.0.1 // indirect
+	github.com/cespare/xxhash/v2 v2.3.0 // indirect
+	github.com/golang/protobuf v1.5.3 // indirect
+	github.com/matttproud/golang_protobuf_extensions v1.0.4 // indirect
+	github.com/pkg/errors v0.9.1 // indirect
+	github.com/prometheus/client_golang v1.16.0 // indirect
+	github.com/prometheus/client_model v0.6.1 // indirect
+	github.com/prometheus/common v0.44.0 // indirect
+	github.com/prometheus/procfs v0.15.1 // indirect
+	github.com/ulule/limiter/v3 v3.11.2 // indirect
+	golang.org/x/text v0.22.0 // indirect
+	google.golang.org/protobuf v1.34.2 // indirect
+)
 
 replace github.com/samber/ro => /repo
 
 replace verif.local/vrt => ../engine/vrt
+
+replace github.com/samber/ro/plugins/strconv => /repo/plugins/strconv
+
+replace github.com/samber/ro/plugins/regexp => /repo/plugins/regexp
+
+replace github.com/samber/ro/plugins/strings => /repo/plugins/strings
+
+replace github.com/samber/ro/plugins/bytes => /repo/plugins/bytes
+
+replace github.com/samber/ro/plugins/time => /repo/plugins/time
+
+replace github.com/samber/ro/plugins/template => /repo/plugins/template
+
+replace github.com/samber/ro/plugins/encoding/base64 => /repo/plugins/encoding/base64
+
+replace github.com/samber/ro/plugins/encoding/json => /repo/plugins/encoding/json
+
+replace github.com/samber/ro/plugins/encoding/gob => /repo/plugins/encoding/gob
+
+replace github.com/samber/ro/plugins/encoding/csv => /repo/plugins/encoding/csv
+
+replace github.com/samber/ro/plugins/sort => /repo/plugins/sort
+
+replace github.com/samber/ro/plugins/stdio => /repo/plugins/stdio
+
+replace github.com/samber/ro/plugins/ratelimit/native => /repo/plugins/ratelimit/native
+
+replace github.com/samber/ro/plugins/ratelimit/ulule => /repo/plugins/ratelimit/ulule
+
+replace github.com/samber/ro/ee/plugins/prometheus => /repo/ee/plugins/prometheus
+
+replace github.com/samber/ro/ee => /repo/ee
